@@ -333,7 +333,7 @@ func checkCLI(c EngCase) (ExOutcome, error) {
 		if skip["drop_column"] {
 			for cn := range tb.Columns {
 				if _, ok := ta.Columns[cn]; !ok {
-					return out, fmt.Errorf("diff.skip.drop_column is set but column %q.%q was dropped\n%v", tn, cn, r)
+					return out, fmt.Errorf("diff.skip.drop_column is set but column %q.%q was dropped%s\n%v", tn, cn, rebuilt(r.Stdout, tn), r)
 				}
 			}
 		}
@@ -344,7 +344,7 @@ func checkCLI(c EngCase) (ExOutcome, error) {
 			}
 			for _, ix := range tb.Indexes {
 				if ix.Name != "" && !have[ix.Name] {
-					return out, fmt.Errorf("diff.skip.drop_index is set but index %q on %q was dropped\n%v", ix.Name, tn, r)
+					return out, fmt.Errorf("diff.skip.drop_index is set but index %q on %q was dropped%s\n%v", ix.Name, tn, rebuilt(r.Stdout, tn), r)
 				}
 			}
 		}
@@ -364,7 +364,8 @@ func checkCLI(c EngCase) (ExOutcome, error) {
 			// a kept table may legitimately keep/lose a foreign key pointing at an excluded table
 			var real []string
 			for _, l := range d {
-				if !strings.Contains(l, "foreign keys") {
+				// (the AUTOINCREMENT attribute of an existing key is not diffed at all: recorded under C01, not this property's subject)
+				if !strings.Contains(l, "foreign keys") && !strings.Contains(l, "AUTOINCREMENT true vs false") && !strings.Contains(l, "AUTOINCREMENT false vs true") {
 					real = append(real, l)
 				}
 			}
@@ -376,6 +377,14 @@ func checkCLI(c EngCase) (ExOutcome, error) {
 	out.Excluded, out.Kept = len(excluded), len(names)-len(excluded)
 	_ = os.Remove
 	return out, nil
+}
+
+// rebuilt notes (from the complete plan output, which error texts clip) whether the plan rebuilt the table.
+func rebuilt(stdout, table string) string {
+	if strings.Contains(stdout, "CREATE TABLE `new_"+table+"`") {
+		return " [the plan rebuilds table " + table + "]"
+	}
+	return ""
 }
 
 func catalog(p string) (*sqliteref.Catalog, error) {
